@@ -9,7 +9,9 @@ Only then is it kept.  The scratch worktree is reused between calls and removed 
 """
 import json, os, shutil, subprocess, sys, time
 
-WT = "/tmp/confirm/wt"
+WT = os.environ.get("CONFIRM_WT", "/tmp/confirm/wt")          # round 2 (seeds made against the repaired HEAD): CONFIRM_WT=/tmp/confirm2/wt CONFIRM_TAG=r2-
+TAG = os.environ.get("CONFIRM_TAG", "")
+SCR = os.path.dirname(WT)
 REPO = "/repo"
 
 
@@ -32,7 +34,7 @@ def ensure_wt():
 def main():
     if sys.argv[1] == "--cleanup":
         sh("git -C %s worktree remove --force %s" % (REPO, WT))
-        shutil.rmtree("/tmp/confirm", ignore_errors=True)
+        shutil.rmtree(SCR, ignore_errors=True)
         return
     prop, sdir = sys.argv[1], sys.argv[2]
     ks = sys.argv[3:] or sorted(d for d in os.listdir(sdir) if os.path.isdir(os.path.join(sdir, d)))
@@ -46,23 +48,23 @@ def main():
             meta = {"error": "meta.json unreadable: %s" % e}
         build = meta.get("demo_build") or ""
         extra = ""
-        for tok in build.split():
+        for tok in build.split("(")[0].split():
             if tok.startswith("-D") or tok.startswith("-std=") or tok.startswith("-O") or tok.startswith("-f"):
                 extra += " " + tok
         if "-std=" not in extra:
             extra += " -std=gnu++17"
         sh("git checkout -- include development", cwd=WT)
         demo = os.path.join(src, "demo.cpp")
-        rc, out = sh("g++ %s -I include %s -o /tmp/confirm/demo_clean" % (extra, demo), cwd=WT)
+        rc, out = sh("g++ %s -I include %s -o %s/demo_clean" % (extra, demo, SCR), cwd=WT)
         res["demo_builds_clean"] = rc == 0
-        rc1, out1 = sh("/tmp/confirm/demo_clean", cwd=WT, timeout=120) if rc == 0 else (99, out)
+        rc1, out1 = sh("%s/demo_clean" % SCR, cwd=WT, timeout=120) if rc == 0 else (99, out)
         res["demo_clean_rc"] = rc1
         rc, out = sh("git apply %s" % os.path.join(src, "patch.diff"), cwd=WT)
         res["patch_applies"] = rc == 0
         if rc == 0:
-            rc, out = sh("g++ %s -I include %s -o /tmp/confirm/demo_patched" % (extra, demo), cwd=WT)
+            rc, out = sh("g++ %s -I include %s -o %s/demo_patched" % (extra, demo, SCR), cwd=WT)
             res["demo_builds_patched"] = rc == 0
-            rc2, out2 = sh("/tmp/confirm/demo_patched", cwd=WT, timeout=120) if rc == 0 else (99, out)
+            rc2, out2 = sh("%s/demo_patched" % SCR, cwd=WT, timeout=120) if rc == 0 else (99, out)
             res["demo_patched_rc"] = rc2
             res["demo_patched_out"] = out2[-400:]
             t = time.time()
@@ -79,13 +81,13 @@ def main():
         res["confirmed"] = bool(ok)
         print(json.dumps(res))
         sys.stdout.flush()
-        dst = "/verif/seeded/%s-%s" % (prop, k)
+        dst = "/verif/seeded/%s-%s%s" % (prop, TAG, k)
         if ok:
             os.makedirs(dst, exist_ok=True)
             shutil.copy(os.path.join(src, "patch.diff"), dst)
             shutil.copy(demo, dst)
             meta["breaks_property"] = prop
-            meta["confirmation"] = {"by": "tools/confirm_seeds.py in scratch worktree /tmp/confirm/wt", "demo_clean_rc": res["demo_clean_rc"],
+            meta["confirmation"] = {"by": "tools/confirm_seeds.py in scratch worktree %s" % WT, "demo_clean_rc": res["demo_clean_rc"],
                                     "demo_patched_rc": res["demo_patched_rc"], "suite": res["suite_tail"],
                                     "suite_build": "cmake -G Ninja -DHFSM2_BUILD_TESTS=ON -DCMAKE_CXX_FLAGS='-O0 -Wno-error'; ninja hfsm2_test; ./_build/hfsm2_test"}
             json.dump(meta, open(os.path.join(dst, "meta.json"), "w"), indent=1)
